@@ -48,6 +48,52 @@ fn ref_decode(b: &[u8]) -> Option<(u64, Vec<u8>)> {
     Some((q * 4, b[n..].to_vec()))
 }
 
+fn buf_walk(id: u64, p: &[u8]) -> Result<(), Violation> {
+    let mut exp = varint::encode(id / 4);
+    let hdr = exp.len();
+    exp.extend_from_slice(p);
+    let payload = if p.len() >= 2 && chance(1, 3) { SimBuf::multi(p, &[1 + draw_usize(p.len() - 1)]) } else { SimBuf::one(p.to_vec()) };
+    let mut enc = h3_datagram::datagram::Datagram::new(StreamId::try_from(id).unwrap(), payload).encode();
+    let mut off = 0usize;
+    let mut steps = 0;
+    let mk = |rule: &str, d: String| Violation::new(rule, d);
+    loop {
+        if enc.remaining() != exp.len() - off {
+            return Err(mk("C18.buf_remaining_wrong", format!("stream {id} payload {} bytes: after consuming {off} of {} bytes remaining() = {}", p.len(), exp.len(), enc.remaining())).fact("header_len", hdr));
+        }
+        if off == exp.len() {
+            if enc.has_remaining() || !enc.chunk().is_empty() {
+                return Err(mk("C18.buf_not_empty_at_end", format!("stream {id}: chunk() has {} bytes after everything was consumed", enc.chunk().len())));
+            }
+            return Ok(());
+        }
+        let c = enc.chunk();
+        if c.is_empty() || c.len() > exp.len() - off {
+            return Err(mk("C18.buf_chunk_len_wrong", format!("stream {id}: chunk() has {} bytes at offset {off} of {}", c.len(), exp.len())));
+        }
+        if c != &exp[off..off + c.len()] {
+            return Err(mk("C18.buf_chunk_wrong", format!("stream {id} payload {} bytes: chunk() at offset {off} is [{}], expected [{}]", p.len(), c.iter().take(12).map(|x| format!("{x:02x}")).collect::<Vec<_>>().join(" "), exp[off..].iter().take(12).map(|x| format!("{x:02x}")).collect::<Vec<_>>().join(" "))).fact("header_len", hdr).fact("in_header", off < hdr));
+        }
+        // advance: within the chunk (most steps), or beyond it, up to everything that remains
+        let left = exp.len() - off;
+        let j = match draw(4) {
+            0 => c.len(),
+            1 => 1 + draw_usize(c.len() - 1),
+            2 => 1 + draw_usize(left - 1),
+            _ => (1 + draw_usize(hdr + 2)).min(left),
+        };
+        if off < hdr && off + j > hdr {
+            obs::count("c18.advance_spans_header_and_payload");
+        }
+        enc.advance(j);
+        off += j;
+        steps += 1;
+        if steps > 4000 {
+            return Err(mk("C18.buf_walk_no_progress", format!("stream {id}")));
+        }
+    }
+}
+
 fn run_fidelity(ctx: &RunCtx) -> RunOut {
     let to_server = draw(2) == 0; // direction under test
     let m = 1 + draw_usize(4);
@@ -62,6 +108,14 @@ fn run_fidelity(ctx: &RunCtx) -> RunOut {
         };
         let len = *pick(&[0usize, 1, 2, 7, 100, 1180, 1191]).min(&(1 + draw_usize(1190)));
         plan.push((4 * k, draw_bytes(len)));
+    }
+    // The encoded buffer consumed directly under the general `bytes::Buf` contract: read a drawn part
+    // of the current chunk, then advance by a drawn amount that may be larger than what was read and
+    // may span the quarter stream ID and the payload in one call (a backend acknowledging a burst).
+    for (id, p) in &plan {
+        if let Err(v) = buf_walk(*id, p) {
+            return RunOut::fail(v);
+        }
     }
     let mut cfg = NetCfg::drawn();
     cfg.max_datagram = 1200;
@@ -426,7 +480,7 @@ impl Check for C18 {
     fn meta(&self) -> Meta {
         Meta {
             level: "exploration",
-            rule: "fidelity: 1-4 datagrams per run for stream ids 4k (k swept systematically over 0..2^16 by the run index in the first 131072 runs, varint form boundaries 63/64, 16383/16384, 2^30-1/2^30, 2^60-1, and drawn 60-bit k) x payloads of 0..1191 arbitrary bytes (single and multi-chunk Bufs) sent through DatagramSender in either direction x drawn consumption of the EncodedDatagram Buf by the transport (chunk/advance whole, copy_to_bytes, byte-wise, drawn sizes) x unreliable delivery (drop, duplicate, reorder) to the peer's DatagramReader; raw datagrams: all byte strings of length 0-1, a systematic slice of length 2, drawn strings up to 9 bytes incl. truncated varints and quarter ids >= 2^60; every run counts as non-trivial; distinct = distinct schedule signatures",
+            rule: "fidelity: 1-4 datagrams per run for stream ids 4k (k swept systematically over 0..2^16 by the run index in the first 131072 runs, varint form boundaries 63/64, 16383/16384, 2^30-1/2^30, 2^60-1, and drawn 60-bit k) x payloads of 0..1191 arbitrary bytes (single and multi-chunk Bufs) sent through DatagramSender in either direction x drawn consumption of the EncodedDatagram Buf by the transport (chunk/advance whole, copy_to_bytes, byte-wise, drawn sizes) and, on a directly encoded copy, a walk under the general bytes::Buf contract (advance by less than, exactly, or more than the current chunk, incl. one advance spanning quarter stream ID and payload) with remaining()/chunk() compared to the reference bytes at every step x unreliable delivery (drop, duplicate, reorder) to the peer's DatagramReader; raw datagrams: all byte strings of length 0-1, a systematic slice of length 2, drawn strings up to 9 bytes incl. truncated varints and quarter ids >= 2^60; every run counts as non-trivial; distinct = distinct schedule signatures",
             real: &["h3_datagram::datagram::{Datagram, EncodedDatagram}", "h3_datagram DatagramSender / DatagramReader / HandleDatagramsExt for client and server", "h3 connection drivers and error propagation"],
             stub: &["QUIC transport incl. the datagram extension traits (SimQuic)", "executor (simexec)", "raw peer for malformed datagrams"],
             assumptions: &["the Quinn datagram adapter (h3-quinn/src/datagram.rs) is exercised by C17's engine, not here"],
